@@ -28,7 +28,7 @@ from yaql import legacy
 
 ID = 'C02'
 LEAN_MODULES = ['Yaql.Props.C02', 'Yaql.Props.C02Table', 'Yaql.Props.C02Levels', 'Yaql.Props.C02Order',
-                'Yaql.Props.C02Iso', 'Yaql.Props.C02Gen', 'Yaql.Props.C03Parse', 'Yaql.Props.C02Hist'] + \
+                'Yaql.Props.C02Iso', 'Yaql.Props.C02Gen', 'Yaql.Props.C03Parse', 'Yaql.Props.C02Hist', 'Yaql.Props.C02Chain'] + \
     srcobl.modules('C02')   # Props/SrcOpTable
 REQUIRED_THEOREMS = [
     'Yaql.Props.C02.parse_sound', 'Yaql.Props.C02.parse_roundtrip', 'Yaql.Props.C02.parse_unique',
@@ -49,6 +49,10 @@ REQUIRED_THEOREMS = [
     'Yaql.Props.C02Hist.engine_stable', 'Yaql.Props.C02Hist.snapshot_kept', 'Yaql.Props.C02Hist.later_inserts_irrelevant',
     'Yaql.Props.C02Hist.copy_parses_like_origin', 'Yaql.Props.C02Hist.demo_snapshots',
     'Yaql.Props.C02Hist.regenerating_copy_differs',
+    'Yaql.Props.C02Chain.parse_leftChain', 'Yaql.Props.C02Chain.parse_rightChain', 'Yaql.Props.C02Chain.no_right_nesting',
+    'Yaql.Props.C02Chain.no_left_nesting', 'Yaql.Props.C02Chain.parse_repeat_left', 'Yaql.Props.C02Chain.parse_repeat_right',
+    'Yaql.Props.C02Chain.demo_left', 'Yaql.Props.C02Chain.demo_right', 'Yaql.Props.C02Chain.live_and_or_left',
+    'Yaql.Props.C02Chain.default_and_chain', 'Yaql.Props.C02Chain.default_or_chain',
 ] + srcobl.theorems('C02')
 TRUSTED = ["ply's LALR(1) table construction and precedence-based conflict resolution (differentially tested only)",
            'the real ply lexer is used to tokenise (the lexer model belongs to C01/C03/C16)']
@@ -1654,7 +1658,13 @@ LEVEL_TEXT = ('Lean 4 theorems over a code-shaped model of insert_operator, _bui
               '(default, legacy, with/without delegates) and by differential runs of the compiled model against the '
               'real engine (exhaustive <=3 binary x <=2 prefix operators on both standard tables in the thorough tier, '
               'random forms, custom tables, dictated trees, token soups).')
-LEVEL_NOTE = ("round 5: EngineHist model of one factory over time (insert / create / copy) with C02Hist.snapshot_kept and "
+LEVEL_NOTE = ("round 6: C02Chain - chains of operators of one ply level are left-deep on a 'left' row and right-deep on a 'right' row for "
+              "EVERY number of operands and any operands closed against the level (parse_leftChain / parse_rightChain, one operator repeated: "
+              "parse_repeat_left/right), a tree nesting the other way is never WF (no_right_nesting / no_left_nesting), instances for the live "
+              "default table (default_and_chain, default_or_chain); correspondence: every binary operator of every table in chains of 9..150 "
+              "operands, bare and embedded; identifier-shaped operator words with underscores / digits / capitals in the symbol pool; the smallest "
+              "dictated trees for every symbol in every declared role. "
+              "round 5: EngineHist model of one factory over time (insert / create / copy) with C02Hist.snapshot_kept and "
               "later_inserts_irrelevant (an engine and all its copies, whenever made, parse by the table of create() time, for every later "
               "history); tied by replaying the same host operations on real factories and comparing every descendant with a fresh engine "
               "of creation time. trusted: Lean kernel; ply's LALR(1) construction and conflict resolution (the model is a precedence "
